@@ -85,6 +85,18 @@ func (c12) Gen(rt *rapid.T, thorough bool) any {
 	s.Handles = rapid.IntRange(0, 2).Draw(rt, "handles")
 	s.Cycle = rapid.IntRange(0, 3).Draw(rt, "cycle") == 0
 	s.BadHandle = rapid.IntRange(0, 9).Draw(rt, "bad_handle") == 0
+	if s.Via == "refresh" && rapid.IntRange(0, 3).Draw(rt, "odd_name") == 0 {
+		s.HName = rapid.SampledFrom([]string{"access_log", "access-log", "AccessLog", "a1", "log.access"}).Draw(rt, "handle_name")
+	}
+	if rapid.IntRange(0, 11).Draw(rt, "huge_write") == 0 && !s.Overflow && len(s.Producers) > 0 {
+		// one very large write (above any plausible "large payload" threshold) behind small ones
+		p := rapid.IntRange(0, len(s.Producers)-1).Draw(rt, "huge_p")
+		s.Producers[p] = append(s.Producers[p], AOp{Raw: true, Size: 1<<20 + 3})
+		if len(s.Producers[p]) > 2 {
+			k := len(s.Producers[p])
+			s.Producers[p][k-1], s.Producers[p][1] = s.Producers[p][1], s.Producers[p][k-1]
+		}
+	}
 	return s
 }
 
@@ -123,8 +135,12 @@ func (c12) Run(x *Exec, scn any) {
 
 func runC12Refresh(x *Exec, s *AsyncScn) {
 	o := x.Out
+	hname := "alog"
+	if s.HName != "" {
+		hname = s.HName
+	}
 	spec := &SysSpec{Style: s.Style, Props: map[string]string{}}
-	lg := LogSpec{Name: "alog", Type: s.Kind, Tags: []string{"_app_*"}, Level: s.Level, Layout: s.LLayout}
+	lg := LogSpec{Name: hname, Type: s.Kind, Tags: []string{"_app_*"}, Level: s.Level, Layout: s.LLayout}
 	sys := &asyncSys{s: s, capacity: s.BufferSize}
 	switch s.Kind {
 	case "AsyncLogger", "Logger":
@@ -156,10 +172,10 @@ func runC12Refresh(x *Exec, s *AsyncScn) {
 		spec.Apps = append(spec.Apps, AppSpec{Name: "unused", Type: "Discard"})
 	}
 	spec.Logs = []LogSpec{lg}
-	h := log.GetLogger("alog")
+	h := log.GetLogger(hname)
 	for i := 0; i < s.Handles; i++ {
-		if h2 := log.GetLogger("alog"); h2 != h {
-			o.violate("handle-identity", "C12/handle-not-same", "GetLogger(%q) returned two different handles", "alog")
+		if h2 := log.GetLogger(hname); h2 != h {
+			o.violate("handle-identity", "C12/handle-not-same", "GetLogger(%q) returned two different handles", hname)
 		}
 	}
 	if s.BadHandle {
@@ -185,6 +201,13 @@ func runC12Refresh(x *Exec, s *AsyncScn) {
 		x.do("destroy", func() { call(log.Destroy) })
 		return
 	}
+	if err != nil && hname != "alog" {
+		// which spellings of a logger name a configuration can carry is not part of the statement:
+		// rejecting the name is fine, accepting it obliges to deliver (judged below)
+		o.Notes = append(o.Notes, "Refresh does not accept the logger name "+hname)
+		x.do("destroy", func() { call(log.Destroy) })
+		return
+	}
 	if err != nil {
 		o.violate("refresh-error", "C12/refresh-error/"+s.Kind, "Refresh rejected a valid configuration: %v\n%v", err, cfg)
 		return
@@ -196,12 +219,12 @@ func runC12Refresh(x *Exec, s *AsyncScn) {
 			return
 		}
 		var h2 *log.LoggerWrapper
-		if pv, _ := call(func() { h2 = log.GetLogger("alog") }); pv != nil {
+		if pv, _ := call(func() { h2 = log.GetLogger(hname) }); pv != nil {
 			o.violate("gethandle-refused", "C12/handle-refused-after-destroy", "GetLogger after Destroy panicked: %v", pv)
 			return
 		}
 		if h2 != h {
-			o.violate("handle-identity", "C12/handle-not-same-after-destroy", "GetLogger(%q) after Destroy returned a different handle than before", "alog")
+			o.violate("handle-identity", "C12/handle-not-same-after-destroy", "GetLogger(%q) after Destroy returned a different handle than before", hname)
 		}
 		if !x.do("refresh-2", func() { pv, st = call(func() { err = log.Refresh(cfg) }) }) || pv != nil || err != nil {
 			o.violate("second-life-refresh", "C12/refresh-after-destroy-failed", "Refresh after Destroy failed: %v %v", pv, err)
